@@ -59,7 +59,7 @@ Definition simple_frags (o : op) (p : string) : option (list frag) :=
   | OSymlink t => Some [Lit "ln"; Lit "-snf"; Q t; Q p]
   | OHardlink t => Some [Lit "ln"; Lit "-nf"; Q t; Q p]
   | OFind follow ty => Some (app [Lit "find"] (app (if follow then [Lit "-L"] else [])
-                              [Q p; Lit "-mindepth"; Lit "1"; Lit "-maxdepth"; Lit "1"; Lit "-type"; Lit ty]))
+                              [Q p; Lit "-mindepth"; Lit "1"; Lit "-maxdepth"; Lit "1"; Lit "-type"; Lit ty; Lit "-print0"]))
   | _ => None
   end.
 
